@@ -60,6 +60,88 @@ def gen_cases(rng, tier):
     return cases
 
 
+# ---- rows of a schema and partial-column updates (UPDATE .. SET of some columns): the page merges the caller's tuple with the stored row
+def schema_row(a, l1, l2):
+    """bytes of tuple.NewTupleFromSchema([a, 'p'*l1, 'q'*l2], (int, varchar, varchar)): Model/TupleCodec.v's layout"""
+    import struct
+    fixed = b"\x00" + struct.pack("<i", a) + struct.pack("<I", 13) + struct.pack("<I", 13 + 3 + l1)
+    return fixed + b"\x00" + struct.pack("<H", l1) + b"p" * l1 + b"\x00" + struct.pack("<H", l2) + b"q" * l2
+
+
+def gen_schema_seq(rng, n):
+    """Go-side operations S (insert a schema row), P (partial-column update), M/A/R/G; the page is driven close to full with rows
+    of similar size so that an update that grows one column has to be refused although the CALLER's tuple (NULL dummies in the
+    other columns) would fit"""
+    ops, nslots = [], 0
+    base1, base2 = rng.choice([0, 5, 30]), rng.choice([10, 40, 90])
+    fill = rng.random() < 0.7
+    for k in range(n):
+        r = rng.random()
+        tgt = lambda: rng.randrange(0, max(1, nslots))
+        if (fill and k < n * 0.6 and r < 0.75) or r < 0.25:
+            ops.append("S %d %d %d" % (rng.randrange(-5, 1000), base1 + rng.randrange(0, 4), base2 + rng.randrange(0, 4))); nslots += 1
+        elif r < 0.75:
+            mask = rng.choice([1, 2, 4, 3, 5, 6, 7, 2, 4])
+            grow = rng.random() < 0.7
+            ops.append("P %d %d %d %d %d" % (tgt(), mask, rng.randrange(-5, 1000), (base1 + rng.randrange(0, 60)) if grow else rng.randrange(0, base1 + 1),
+                                            (base2 + rng.randrange(0, 60)) if grow else rng.randrange(0, base2 + 1)))
+        elif r < 0.80:
+            ops.append("M %d" % tgt())
+        elif r < 0.86:
+            ops.append("A %d" % tgt())
+        elif r < 0.90:
+            ops.append("R %d" % tgt())
+        else:
+            ops.append("G %d" % tgt())
+    for i in range(min(nslots, 30)):
+        ops.append("G %d" % i)
+    return ";".join(ops)
+
+
+def schema_model_ops(case, out):
+    """the model-side operations (rows as hex: IH / UH) of a Go-side schema case, built from the requests and the implementation's own
+    reports of which inserts and updates succeeded (a wrong report shows as a difference of the states compared afterwards)"""
+    rows = {}       # slot -> (a, l1, l2) of the live or delete-marked row
+    mops = []
+    toks = out.split(" ")
+    for i, op in enumerate(case.split(";")):
+        f = op.split()
+        o = toks[i].split("|")[0] if i < len(toks) else "?"
+        if f[0] == "S":
+            v = (int(f[1]), int(f[2]), int(f[3]))
+            mops.append("IH " + schema_row(*v).hex())
+            if o.startswith("ins:"):
+                rows[int(o[4:])] = v
+        elif f[0] == "P":
+            k, mask = int(f[1]), int(f[2])
+            cur = rows.get(k, (0, 0, 0))
+            new = (int(f[3]), int(f[4]), int(f[5]))
+            v = tuple(new[c] if mask & (1 << c) else cur[c] for c in range(3))
+            mops.append("UH %d %s 0" % (k, schema_row(*v).hex()))
+            if o.startswith("upd:"):
+                rows[k] = v
+        else:
+            mops.append(op)
+            if f[0] == "A" and o.startswith("done"):
+                rows.pop(int(f[1]), None)
+    return ";".join(mops)
+
+
+def oracle_form(mcase):
+    """model-side operations in the (length, content id) form the shadow-map oracle reads"""
+    import hashlib
+    out = []
+    for op in mcase.split(";"):
+        f = op.split()
+        if f[0] == "IH":
+            out.append("I %d %s" % (len(f[1]) // 2, hashlib.md5(f[1].encode()).hexdigest()[:8]))
+        elif f[0] == "UH":
+            out.append("U %s %d %s %s" % (f[1], len(f[2]) // 2, hashlib.md5(f[2].encode()).hexdigest()[:8], f[3]))
+        else:
+            out.append(op)
+    return ";".join(out)
+
+
 TOK = re.compile(r"^([a-z]+)(?::([^|]*))?\|(\d+)\|([^|]*)\|(\d+):([0-9a-f]+)$")
 
 
@@ -168,6 +250,23 @@ def run(res, replay=None):
         if rc != 0 or len(impl) != len(cases):
             res.broken.append("Go harness failed (rc=%d, %d lines for %d cases): %s" % (rc, len(impl), len(cases), out[-300:]))
             impl = None
+    # partial-column updates on rows of a schema: the Go side runs first, the model's operations are derived from its reports
+    mcases = list(cases)
+    if impl is not None and not replay:
+        rng2 = random.Random(res.seed * 7919 + 15)
+        scases = [gen_schema_seq(rng2, rng2.randrange(10, 140)) for _ in range(150 if res.tier == "quick" else 2500)]
+        rc, out = run_harness("c15", "\n".join(scases) + "\n")
+        simpl = out.split("\n")[:-1]
+        if rc != 0 or len(simpl) != len(scases):
+            res.broken.append("Go harness failed on the schema cases (rc=%d, %d lines for %d cases): %s" % (rc, len(simpl), len(scases), out[-300:]))
+        else:
+            cases += scases; impl += simpl
+            mcases += [schema_model_ops(c, o) for c, o in zip(scases, simpl)]
+            res.extra["partial_update_cases"] = len(scases)
+            res.extra["partial_update_outcomes"] = {k: sum(o.count(" " + k) + o.startswith(k) for o in simpl) for k in ("upd:", "nospace", "rbdiff", "fail")}
+    elif replay:
+        mcases = [schema_model_ops(c, o) if re.search(r"(^|;)[SP] ", c) else c for c, o in zip(cases, impl or [""] * len(cases))]
+    text = "\n".join(mcases) + "\n"
     rc, out = sh([os.path.join(BUILD, "c15_driver"), "spec"], input=text, timeout=900)
     model = out.split("\n")[:-1]
     if rc != 0 or len(model) != len(cases):
@@ -189,8 +288,11 @@ def run(res, replay=None):
             kinds[k] = kinds.get(k, 0) + 1
         nontriv = any(t.startswith("upd") or (t.startswith("done") and op.startswith("A")) for t, op in zip(o.split(" "), ops)) and o.count("ins:") >= 2
         res.note_case(c, nontriv)
-        why = oracle(c, o)
-        if why and len(res.oracle_failures) < 3:
+        is_schema = mcases[i] is not c
+        why = oracle(oracle_form(mcases[i]) if is_schema else c, o)
+        if why and is_schema and len(res.oracle_failures) < 3:
+            res.oracle_failures.append((c, why + " | implementation: " + o[:600]))
+        elif why and len(res.oracle_failures) < 3:
             def fails(cc):
                 rc2, out2 = run_harness("c15", cc + "\n")
                 return rc2 == 0 and oracle(cc, out2.strip()) is not None
